@@ -170,6 +170,33 @@ def run(ctx, rep):
     # ---------------- R5 explain_matching: year boundary + lookup key
     import rules.c07 as c07
     c07.year_sites(F, rep, rule="R5", only_crate="cgt_mcp")
+    # the explaining tool computes the report of the tax year that contains the requested date: restricted to that year the
+    # calculation needs only that year's exemption, so every disposal calculate_report can list can be explained; an all-years
+    # calculation (year = None) fails for reasons that have nothing to do with the requested disposal (seeded change C20-s5)
+    n_explain = 0
+    for tid, kids in P.mcp_tool_bodies(F).items():
+        fam = [F.bodies[tid]] + [F.bodies[k] for k in kids if k in F.bodies]
+        looks_up = any(re.search(r"models::Disposal\b", (F.bodies.get(t["callee"]).ret if F.bodies.get(t["callee"]) else "")) for x in fam for _, t in x.calls())
+        if not looks_up:
+            continue
+        for x in fam:
+            xt = None
+            for i, t in x.calls():
+                cb = F.bodies.get(t["callee"])
+                if cb is None or "TaxReport" not in cb.ret or cb.crate not in ("cgt_mcp", "cgt_core"):
+                    continue
+                for k, a in enumerate(t["args"]):
+                    if "Option<i32>" not in cb.local_ty(k + 1).replace(" ", "") and "Option<u16>" not in cb.local_ty(k + 1).replace(" ", ""):
+                        continue
+                    xt = xt or Terms(F, x, inline_depth=1)
+                    yt = xt.operand(a)
+                    n_explain += 1
+                    ok = not _is_none(yt) and any(isinstance(z, tuple) and z and z[0] == "call" and parse_callee(z[1])[2] == "year" for z in subterms(yt))
+                    rep.ob("R5", f"{F.bodies[tid].short}:own-tax-year", ok, "the explanation is computed for the tax year of the requested date" if ok else
+                           f"the explaining tool calculates with year = {show(yt)[:40]}: a ledger whose other years cannot be summarised (no exemption "
+                           "configured) can be reported year by year but its disposals cannot be explained", x.loc(t["sp"]), key=f"R5:{F.bodies[tid].short}:own-tax-year")
+    if n_explain < 1:
+        rep.unresolved("R5", "explain-calculation", "no calculation with a year argument found in a tool that looks a disposal up")
     fd = [b for b in F.bodies.values() if b.crate == "cgt_mcp" and b.kind in ("method", "fn") and re.search(r"models::Disposal\b", b.ret) and b.ret.startswith(("core::result::Result<", "core::option::Option<")) and P.user_written(F, b)]
     for b in fd:
         from roles import guards_of
